@@ -46,11 +46,11 @@ def run(rep, tier, seed):
     C.check_anchor(rep, "BundleBase::transform_impl", "include/manif/impl/bundle/Bundle_base.h")
     C.check_anchor(rep, "BundleTangentBase::exp", "include/manif/impl/bundle/BundleTangent_base.h")
     C.check_anchor(rep, "compute_indices", "include/manif/impl/traits.h")
-    for g in ls:
+    def one_layout(rep, g):
         if g in errs:
             rep.fail("C11/%s/instantiates" % g, "BUILD", "g++", {"compiler_output": errs[g].output[-3000:]},
                      {"failing_input_reproduced": False})
-            continue
+            return
         try:
             check_layout(rep, g, seed)
         except RuntimeError as e:
@@ -58,17 +58,19 @@ def run(rep, tier, seed):
                 raise
             # product of the elements' branch structures exceeds the path cap: this layout's remaining scenarios are not run
             rep.not_run.append("C11/%s: %s" % (g, str(e)[-120:]))
+    rep.parallel(ls, one_layout)
     tls = (ls[:2] + ["Bundle:SE_2_3,SO3,SE2", "Bundle:SGal3,R3,SO2"]) if tier == "quick" else ls
     terrs.update(TRANSFORM.build([g for g in tls if g not in ls[:2]], native=False) if tier == "quick" else {})
-    for g in tls:
+    def one_transform(rep, g):
         if g in terrs:
             lines = [l for l in terrs[g].output.splitlines() if "error" in l][:5]
             rep.fail("C11/%s/transform/instantiates" % g, "BUILD", "g++",
                      {"compiler_output": "\n".join(lines), "note": "Bundle::transform() cannot be instantiated"},
                      {"failing_input_reproduced": True,
                       "demonstration": "any program calling transform() on a %s fails to compile" % S.cpp_type(g).replace("vs::Sym", "double")})
-            continue
+            return
         check_transform(rep, g, seed)
+    rep.parallel(tls, one_transform)
 
 
 def _blocks(c, sp, name, row_attr, col_attr, label):
